@@ -124,7 +124,7 @@ Print Assumptions C11_spicetype_roundtrip_back.
 Example C11_enums_nonvacuous : List.length portdir_names = 4%nat /\ List.length spicetype_names = 14%nat /\ In "MOS" schema_spicetype_names.
 Proof. vm_compute. repeat split; try reflexivity. tauto. Qed.
 
-(* Parameter values: every value the exporter can write (int64, double, literal, prefixed with an int64 or a
+(* Values of parameters: every value the exporter can write (int64, double, literal, prefixed with an int64 or a
    non-integral decimal number, any of the 21 prefixes) is imported and exported again as itself. *)
 Theorem C11_value_roundtrip : forall v, value_normal v = true -> rt_value v = Ok v.
 Proof. exact value_roundtrip. Qed.
